@@ -1,6 +1,807 @@
-//! C05 -- (stub; see DESIGN.md section 5)
-use crate::util::Args;
+//! C05: compiled lig/kern programs (tfm::ligkern) -- binding F.
+//!
+//! Every subcommand builds raw `lang::Program` values (or loads them from corpus fonts), compiles
+//! them with the real `CompiledProgram::compile*`, runs the compiled program on words and records
+//! one ndjson event per program:
+//!
+//!   {"p": {"ins": [[skip, right_char, op, rem], ...],   skip: -1 = STOP, n = SKIP n
+//!                                                        op: TeX op_byte (0,1,2,3,5,6,7,11), 128 = kern,
+//!                                                            255 = skip_byte > 128 (EntrypointRedirect)
+//!                                                        rem: inserted char | kern as Scaled | redirect
+//!          "ep": [[char, index], ...], "packed": 0|1,    entry points (packed = raw TFM remainders)
+//!          "lbe": index | -1, "rbc": char | 256},
+//!    "errs": [[left | 256, right], ...]                  starting pairs of the reported loop errors
+//!    "runs": [{"w": [chars], "nl": 0|1, "ro": char | 256, "out": [item, ...]} ...]}
+//!   item = [0, c] plain character | [1, c, [originals], lb, rb] ligature | [2, scaled] kern
+//!
+//! No expectation is computed here: Trace_LigKern.tla re-interprets the raw instructions with TeX's
+//! cursor semantics and decides every run and the loop report.
+use crate::util::{catch, quiet_panics, Args, Out, Rng};
+use serde_json::{json, Value};
+use std::collections::{BTreeMap, BTreeSet, HashMap};
+use tfm::ligkern::lang::{Instruction, Operation, PostLigOperation, Program};
+use tfm::ligkern::{CompiledProgram, InfiniteLoopError, RunItem, RunOptions};
+use tfm::{Char, FixWord};
 
-pub fn dispatch(_cmd: &str, _args: &Args) -> Option<i32> {
-    None
+pub fn dispatch(cmd: &str, args: &Args) -> Option<i32> {
+    Some(match cmd {
+        "c05-small" => small(args),
+        "c05-random" => random(args),
+        "c05-corpus" => corpus(args),
+        "c05-redirect" => redirect(args),
+        "c05-convert" => convert(args),
+        "c05-one" => one(args),
+        _ => return None,
+    })
+}
+
+// ------------------------------------------------------------------------------------------
+// projection of programs and outputs
+// ------------------------------------------------------------------------------------------
+
+const FORMS: [PostLigOperation; 8] = [
+    PostLigOperation::RetainNeitherMoveToInserted, // LIG      =:      0
+    PostLigOperation::RetainRightMoveToInserted,   // LIG/     =:|     1
+    PostLigOperation::RetainLeftMoveNowhere,       // /LIG     |=:     2
+    PostLigOperation::RetainBothMoveNowhere,       // /LIG/    |=:|    3
+    PostLigOperation::RetainRightMoveToRight,      // LIG/>    =:|>    5
+    PostLigOperation::RetainLeftMoveToInserted,    // /LIG>    |=:>    6
+    PostLigOperation::RetainBothMoveToInserted,    // /LIG/>   |=:|>   7
+    PostLigOperation::RetainBothMoveToRight,       // /LIG/>>  |=:|>> 11
+];
+
+/// The op_byte of the TFM format (TeX82 section 545) for a ligature form.
+fn op_byte(p: PostLigOperation) -> i64 {
+    use PostLigOperation::*;
+    match p {
+        RetainNeitherMoveToInserted => 0,
+        RetainRightMoveToInserted => 1,
+        RetainLeftMoveNowhere => 2,
+        RetainBothMoveNowhere => 3,
+        RetainRightMoveToRight => 5,
+        RetainLeftMoveToInserted => 6,
+        RetainBothMoveToInserted => 7,
+        RetainBothMoveToRight => 11,
+    }
+}
+
+fn form_of_byte(b: i64) -> PostLigOperation {
+    *FORMS.iter().find(|f| op_byte(**f) == b).expect("valid op byte")
+}
+
+fn ins_json(i: &Instruction, kerns: &[FixWord], ds: FixWord) -> Value {
+    let skip: i64 = match i.next_instruction {
+        None => -1,
+        Some(n) => n as i64,
+    };
+    let (op, rem): (i64, i64) = match i.operation {
+        // The kern is shown to the specification as the Scaled value that the font-metric
+        // conversion yields for it (the conversion itself is property C17's subject).
+        Operation::Kern(fw) => (128, fw.to_scaled(ds).0 as i64),
+        Operation::KernAtIndex(k) => (
+            128,
+            kerns.get(k as usize).copied().unwrap_or_default().to_scaled(ds).0 as i64,
+        ),
+        Operation::Ligature { char_to_insert, post_lig_operation, .. } => {
+            (op_byte(post_lig_operation), char_to_insert.0 as i64)
+        }
+        Operation::EntrypointRedirect(u, _) => (255, u as i64),
+    };
+    json!([skip, i.right_char.0, op, rem])
+}
+
+fn program_json<E: Into<i64> + Copy>(
+    p: &Program,
+    kerns: &[FixWord],
+    ds: FixWord,
+    ep: &BTreeMap<u8, E>,
+    packed: bool,
+) -> Value {
+    let ins: Vec<Value> = p.instructions.iter().map(|i| ins_json(i, kerns, ds)).collect();
+    let ep: Vec<Value> = ep.iter().map(|(c, e)| json!([*c, (*e).into()])).collect();
+    json!({
+        "ins": ins,
+        "ep": ep,
+        "packed": packed as u8,
+        "lbe": p.left_boundary_char_entrypoint.map(|e| e as i64).unwrap_or(-1),
+        "rbc": p.right_boundary_char.map(|c| c.0 as i64).unwrap_or(256),
+    })
+}
+
+fn item_json(it: &RunItem) -> Value {
+    match it {
+        RunItem::Char(c) => json!([0, *c as u32]),
+        RunItem::Ligature(l) => {
+            let o: Vec<u32> = l.original.chars().map(|c| c as u32).collect();
+            json!([1, l.c as u32, o, l.includes_left_boundary as u8, l.includes_right_boundary as u8])
+        }
+        RunItem::Kern(k) => json!([2, k.0]),
+    }
+}
+
+#[derive(Clone, Debug)]
+struct RunSpec {
+    w: Vec<u8>,
+    nl: bool,
+    ro: Option<u8>,
+}
+
+const ITEM_CAP: usize = 4096;
+
+fn run_json(cp: &CompiledProgram, r: &RunSpec) -> Value {
+    let s: String = r.w.iter().map(|b| *b as char).collect();
+    let got = catch(|| {
+        let it = cp.run_with_options(
+            s.chars(),
+            RunOptions {
+                disable_left_boundary: r.nl,
+                right_boundary_override: r.ro.map(|b| b as char),
+            },
+        );
+        it.take(ITEM_CAP + 1).map(|i| item_json(&i)).collect::<Vec<Value>>()
+    });
+    let mut v = json!({"w": r.w, "nl": r.nl as u8, "ro": r.ro.map(|b| b as i64).unwrap_or(256)});
+    match got {
+        Ok(items) if items.len() > ITEM_CAP => {
+            v["panic"] = json!(["harness", format!("run yields more than {ITEM_CAP} items")]);
+        }
+        Ok(items) => {
+            v["out"] = Value::Array(items);
+        }
+        Err((site, msg)) => {
+            v["panic"] = json!([site, msg]);
+        }
+    }
+    v
+}
+
+fn errs_json(errs: &[InfiniteLoopError]) -> Value {
+    Value::Array(
+        errs.iter()
+            .map(|e| json!([e.starting_pair.0.map(|c| c.0 as i64).unwrap_or(256), e.starting_pair.1 .0]))
+            .collect(),
+    )
+}
+
+/// Compile with the real compiler and run every requested word; one event.
+fn event(
+    p: &Program,
+    kerns: &[FixWord],
+    ds: FixWord,
+    ep: &BTreeMap<u8, u16>,
+    runs: &[RunSpec],
+    tag: &str,
+) -> Value {
+    let pj = program_json(p, kerns, ds, ep, false);
+    let entry: HashMap<Char, u16> = ep.iter().map(|(c, e)| (Char(*c), *e)).collect();
+    let compiled = catch(|| CompiledProgram::compile(p, ds, kerns, entry));
+    match compiled {
+        Err((site, msg)) => json!({"p": pj, "tag": tag, "panic": [site, msg], "errs": [], "runs": []}),
+        Ok((cp, errs)) => {
+            let rs: Vec<Value> = runs.iter().map(|r| run_json(&cp, r)).collect();
+            json!({"p": pj, "tag": tag, "errs": errs_json(&errs), "runs": rs})
+        }
+    }
+}
+
+// ------------------------------------------------------------------------------------------
+// builders
+// ------------------------------------------------------------------------------------------
+
+#[derive(Clone, Copy, Debug, PartialEq, Eq)]
+enum Act {
+    Kern,
+    Lig(usize, u8), // index into FORMS, inserted char
+}
+
+fn mk_ins(skip: Option<u8>, rc: u8, act: Act, kern: FixWord) -> Instruction {
+    Instruction {
+        next_instruction: skip,
+        right_char: Char(rc),
+        operation: match act {
+            Act::Kern => Operation::Kern(kern),
+            Act::Lig(f, c) => Operation::Ligature {
+                char_to_insert: Char(c),
+                post_lig_operation: FORMS[f],
+                post_lig_tag_invalid: false,
+            },
+        },
+    }
+}
+
+fn words_upto(letters: &[u8], maxlen: usize) -> Vec<Vec<u8>> {
+    let mut out: Vec<Vec<u8>> = vec![];
+    let mut layer: Vec<Vec<u8>> = vec![vec![]];
+    for _ in 0..maxlen {
+        let mut next = vec![];
+        for w in &layer {
+            for l in letters {
+                let mut x = w.clone();
+                x.push(*l);
+                next.push(x);
+            }
+        }
+        out.extend(next.iter().cloned());
+        layer = next;
+    }
+    out
+}
+
+// ------------------------------------------------------------------------------------------
+// c05-small: the exhaustive small space (the same space MC_LigKern.tla explores)
+// ------------------------------------------------------------------------------------------
+//
+// letters = the first `letters` characters from 'a'; a rule is (left in {boundary} + letters,
+// right in letters, kern | one of the 8 forms inserting a letter); a program is a set of at most
+// `rules` rules on distinct pairs, laid out per left character as one SKIP-0 chain closed by STOP;
+// with and without the last letter doubling as right boundary character; every word of length
+// 1..=maxlen, with and without left boundary processing.  `stride`/`offset` take every stride-th
+// program (thorough tier, large spaces).
+fn small(args: &Args) -> i32 {
+    quiet_panics();
+    let k: usize = args.num("letters", 2);
+    let maxr: usize = args.num("rules", 2);
+    let maxlen: usize = args.num("maxlen", 3);
+    let stride: u64 = args.num("stride", 1);
+    let offset: u64 = args.num("offset", 0);
+    let mut out = Out::new(args.str("out"));
+    let letters: Vec<u8> = (0..k).map(|i| b'a' + i as u8).collect();
+    let mut lefts: Vec<Option<u8>> = letters.iter().map(|l| Some(*l)).collect();
+    lefts.push(None);
+    let pairs: Vec<(Option<u8>, u8)> =
+        lefts.iter().flat_map(|l| letters.iter().map(move |r| (*l, *r))).collect();
+    let mut acts = vec![Act::Kern];
+    for f in 0..8 {
+        for c in &letters {
+            acts.push(Act::Lig(f, *c));
+        }
+    }
+    let words = words_upto(&letters, maxlen);
+    let mut runs: Vec<RunSpec> = vec![];
+    for w in &words {
+        for nl in [false, true] {
+            runs.push(RunSpec { w: w.clone(), nl, ro: None });
+        }
+    }
+    let ds = FixWord::ONE;
+    let mut counter: u64 = 0;
+    let mut nprog: u64 = 0;
+    // recursive enumeration of rule sets: pair indices strictly increasing
+    fn rec(
+        start: usize,
+        left: usize,
+        cur: &mut Vec<(usize, usize)>,
+        pairs: &[(Option<u8>, u8)],
+        nacts: usize,
+        f: &mut dyn FnMut(&[(usize, usize)]),
+    ) {
+        f(cur);
+        if left == 0 {
+            return;
+        }
+        for pi in start..pairs.len() {
+            for ai in 0..nacts {
+                cur.push((pi, ai));
+                rec(pi + 1, left - 1, cur, pairs, nacts, f);
+                cur.pop();
+            }
+        }
+    }
+    let mut cur = vec![];
+    let nacts = acts.len();
+    rec(0, maxr, &mut cur, &pairs, nacts, &mut |rules: &[(usize, usize)]| {
+        let idx = counter;
+        counter += 1;
+        if idx % stride != offset % stride {
+            return;
+        }
+        // layout
+        let mut p = Program::default();
+        let mut ep: BTreeMap<u8, u16> = BTreeMap::new();
+        let mut by_left: BTreeMap<Option<u8>, Vec<(u8, Act)>> = BTreeMap::new();
+        for (pi, ai) in rules {
+            by_left.entry(pairs[*pi].0).or_default().push((pairs[*pi].1, acts[*ai]));
+        }
+        let mut kn = 0;
+        for (left, rs) in &by_left {
+            let start = p.instructions.len() as u16;
+            match left {
+                None => p.left_boundary_char_entrypoint = Some(start),
+                Some(l) => {
+                    ep.insert(*l, start);
+                }
+            }
+            for (j, (rc, act)) in rs.iter().enumerate() {
+                kn += 1;
+                let skip = if j + 1 == rs.len() { None } else { Some(0) };
+                p.instructions.push(mk_ins(skip, *rc, *act, FixWord(16 * kn)));
+            }
+        }
+        for rbc in [None, Some(*letters.last().unwrap())] {
+            p.right_boundary_char = rbc.map(Char);
+            out.line(&event(&p, &[], ds, &ep, &runs, "small"));
+        }
+        nprog += 1;
+    });
+    out.flush();
+    eprintln!("c05-small: {nprog} programs of {counter}, {} events, {} runs each", out.lines, runs.len());
+    0
+}
+
+// ------------------------------------------------------------------------------------------
+// c05-random: seeded random programs with chains, shared tails, several labels per chain
+// ------------------------------------------------------------------------------------------
+
+struct Gen {
+    rng: Rng,
+}
+
+impl Gen {
+    fn program(&mut self, with_redirect: bool) -> (Program, Vec<FixWord>, BTreeMap<u8, u16>, Vec<u8>) {
+        let rng = &mut self.rng;
+        let m = rng.range(2, 5) as usize;
+        let letters: Vec<u8> = (0..m).map(|i| b'a' + i as u8).collect();
+        let n = rng.range(3, 9) as usize;
+        let rbc: Option<u8> = match rng.below(4) {
+            0 | 1 => None,
+            2 => Some(*rng.pick(&letters)),
+            _ => Some(b'z'),
+        };
+        let mut kerns: Vec<FixWord> = vec![];
+        let mut ins = vec![];
+        for i in 0..n {
+            let mut rcs = letters.clone();
+            if let Some(b) = rbc {
+                rcs.push(b);
+                rcs.push(b);
+            }
+            let rc = *rng.pick(&rcs);
+            let skip = if i + 1 == n {
+                None
+            } else {
+                match rng.below(10) {
+                    0..=2 => None,
+                    3..=7 => Some(0u8),
+                    _ => {
+                        let s = rng.range(1, 2) as usize;
+                        if i + s + 1 < n {
+                            Some(s as u8)
+                        } else {
+                            Some(0)
+                        }
+                    }
+                }
+            };
+            let operation = if with_redirect && rng.chance(1, 4) {
+                // an instruction with skip_byte > 128 in the middle of the program
+                let forms = [0u8, 1, 2, 3, 5, 6, 7, 11];
+                Operation::EntrypointRedirect(
+                    u16::from_be_bytes([*rng.pick(&forms), *rng.pick(&letters)]),
+                    true,
+                )
+            } else if rng.chance(1, 4) {
+                let amount = FixWord(16 * (i as i32 + 1) * if rng.chance(1, 3) { -1 } else { 1 });
+                if rng.chance(1, 2) {
+                    kerns.push(amount);
+                    Operation::KernAtIndex(kerns.len() as u16 - 1)
+                } else {
+                    Operation::Kern(amount)
+                }
+            } else {
+                let mut cs = letters.clone();
+                if rbc == Some(b'z') && rng.chance(1, 6) {
+                    cs.push(b'z');
+                }
+                Operation::Ligature {
+                    char_to_insert: Char(*rng.pick(&cs)),
+                    post_lig_operation: FORMS[rng.below(8) as usize],
+                    post_lig_tag_invalid: false,
+                }
+            };
+            let skip = if matches!(operation, Operation::EntrypointRedirect(..)) { None } else { skip };
+            ins.push(Instruction { next_instruction: skip, right_char: Char(rc), operation });
+        }
+        let mut ep = BTreeMap::new();
+        for l in &letters {
+            if rng.chance(7, 10) {
+                ep.insert(*l, rng.below(n as u64) as u16);
+            }
+        }
+        if rbc == Some(b'z') && rng.chance(1, 3) {
+            ep.insert(b'z', rng.below(n as u64) as u16);
+        }
+        let lbe = if rng.chance(1, 2) { Some(rng.below(n as u64) as u16) } else { None };
+        let p = Program {
+            instructions: ins,
+            left_boundary_char_entrypoint: lbe,
+            right_boundary_char: rbc.map(Char),
+            passthrough: Default::default(),
+        };
+        (p, kerns, ep, letters)
+    }
+
+    fn runs(&mut self, letters: &[u8], rbc: Option<u8>, nrand: usize) -> Vec<RunSpec> {
+        let rng = &mut self.rng;
+        let mut runs = vec![];
+        for w in words_upto(letters, 2) {
+            let nl = rng.chance(1, 3);
+            runs.push(RunSpec { w, nl, ro: None });
+        }
+        for _ in 0..nrand {
+            let len = rng.range(3, 6) as usize;
+            let mut alphabet = letters.to_vec();
+            if let Some(b) = rbc {
+                if rng.chance(1, 4) {
+                    alphabet.push(b);
+                }
+            }
+            let w: Vec<u8> = (0..len).map(|_| *rng.pick(&alphabet)).collect();
+            let ro = if rng.chance(1, 6) { Some(*rng.pick(letters)) } else { None };
+            runs.push(RunSpec { w, nl: rng.chance(1, 3), ro });
+        }
+        runs
+    }
+}
+
+fn random(args: &Args) -> i32 {
+    quiet_panics();
+    let seed: u64 = args.num("seed", 1);
+    let n: usize = args.num("n", 1000);
+    let nrand: usize = args.num("words", 10);
+    let mut out = Out::new(args.str("out"));
+    let mut g = Gen { rng: Rng::new(seed ^ 0xC05) };
+    for _ in 0..n {
+        let (p, kerns, ep, letters) = g.program(false);
+        let runs = g.runs(&letters, p.right_boundary_char.map(|c| c.0), nrand);
+        out.line(&event(&p, &kerns, FixWord::ONE, &ep, &runs, "random"));
+    }
+    out.flush();
+    0
+}
+
+/// Programs in which an instruction with skip_byte > 128 (`EntrypointRedirect`) can be reached
+/// through a chain.  Outside the quantifier of C05 as written; kept as a separate driver.
+fn redirect(args: &Args) -> i32 {
+    quiet_panics();
+    let seed: u64 = args.num("seed", 1);
+    let n: usize = args.num("n", 300);
+    let mut out = Out::new(args.str("out"));
+    let mut g = Gen { rng: Rng::new(seed ^ 0x5EC7) };
+    let mut made = 0;
+    while made < n {
+        let (p, kerns, ep, letters) = g.program(true);
+        if !p.instructions.iter().any(|i| matches!(i.operation, Operation::EntrypointRedirect(..))) {
+            continue;
+        }
+        let runs = g.runs(&letters, p.right_boundary_char.map(|c| c.0), 6);
+        out.line(&event(&p, &kerns, FixWord::ONE, &ep, &runs, "redirect"));
+        made += 1;
+    }
+    out.flush();
+    0
+}
+
+// ------------------------------------------------------------------------------------------
+// c05-corpus: the lig/kern programs of the fonts shipped in the repository
+// ------------------------------------------------------------------------------------------
+
+/// Words over the font's own alphabet, biased towards pairs that have an instruction.  The chain
+/// walk uses the crate's own iterator only to *choose inputs*; nothing here is an expectation.
+fn corpus_runs(
+    rng: &mut Rng,
+    p: &Program,
+    ep: &BTreeMap<u8, u16>,
+    exists: &BTreeSet<u8>,
+    npairs: usize,
+    nwalks: usize,
+) -> Vec<RunSpec> {
+    let mut succ: BTreeMap<u8, Vec<(u8, Option<u8>)>> = BTreeMap::new();
+    for (c, e) in ep {
+        if !exists.contains(c) {
+            continue;
+        }
+        for (_, i) in p.instructions_for_entrypoint(*e).take(512) {
+            let ins = match i.operation {
+                Operation::Ligature { char_to_insert, .. } if exists.contains(&char_to_insert.0) => {
+                    Some(char_to_insert.0)
+                }
+                _ => None,
+            };
+            if exists.contains(&i.right_char.0) {
+                succ.entry(*c).or_default().push((i.right_char.0, ins));
+            }
+        }
+    }
+    let lefts: Vec<u8> = succ.keys().copied().collect();
+    let all: Vec<u8> = exists.iter().copied().collect();
+    let mut runs = vec![];
+    if lefts.is_empty() || all.is_empty() {
+        return runs;
+    }
+    let mut pairs: Vec<(u8, u8)> =
+        succ.iter().flat_map(|(l, v)| v.iter().map(move |(r, _)| (*l, *r))).collect();
+    pairs.sort();
+    pairs.dedup();
+    // a deterministic sample of the pairs that have an instruction
+    let step = (pairs.len() / npairs.max(1)).max(1);
+    for (i, (l, r)) in pairs.iter().enumerate() {
+        if i % step == 0 {
+            runs.push(RunSpec { w: vec![*l, *r], nl: false, ro: None });
+        }
+    }
+    for _ in 0..nwalks {
+        let len = rng.range(2, 7) as usize;
+        let mut w = vec![*rng.pick(&lefts)];
+        while w.len() < len {
+            let last = *w.last().unwrap();
+            match succ.get(&last) {
+                Some(v) if !rng.chance(1, 5) => {
+                    let (r, ins) = *rng.pick(v);
+                    w.push(r);
+                    // continue from the inserted character's point of view now and then
+                    if let Some(z) = ins {
+                        if succ.contains_key(&z) && rng.chance(1, 2) {
+                            let r2 = rng.pick(&succ[&z]).0;
+                            w.push(r2);
+                        }
+                    }
+                }
+                _ => w.push(*rng.pick(&all)),
+            };
+        }
+        let ro = if rng.chance(1, 10) { Some(*rng.pick(&all)) } else { None };
+        runs.push(RunSpec { w, nl: rng.chance(1, 4), ro });
+    }
+    runs
+}
+
+fn corpus(args: &Args) -> i32 {
+    quiet_panics();
+    let dir = args.req("dir");
+    let seed: u64 = args.num("seed", 1);
+    let npairs: usize = args.num("pairs", 60);
+    let nwalks: usize = args.num("walks", 60);
+    let batch: usize = args.num("batch", 24);
+    let mut out = Out::new(args.str("out"));
+    let mut files: Vec<std::path::PathBuf> = vec![];
+    let subs = args.str("subdirs").unwrap_or("computer-modern,ctan,originals,fuzz").to_string();
+    for sub in subs.split(',') {
+        if let Ok(rd) = std::fs::read_dir(std::path::Path::new(dir).join(sub)) {
+            for e in rd.flatten() {
+                let p = e.path();
+                if matches!(p.extension().and_then(|s| s.to_str()), Some("tfm") | Some("plst") | Some("pl")) {
+                    files.push(p);
+                }
+            }
+        }
+    }
+    files.sort();
+    let mut rng = Rng::new(seed ^ 0xC0FF);
+    let (mut used, mut skipped) = (0, 0);
+    for f in &files {
+        let name = f.file_name().unwrap().to_string_lossy().to_string();
+        let is_tfm = f.extension().and_then(|s| s.to_str()) == Some("tfm");
+        let loaded = catch(|| -> Option<(Value, CompiledProgram, Vec<InfiniteLoopError>, Program, BTreeMap<u8, u16>, BTreeSet<u8>)> {
+            if is_tfm {
+                let bytes = std::fs::read(f).ok()?;
+                let (file, warnings) = tfm::File::deserialize(&bytes);
+                let mut file = file.ok()?;
+                if !warnings.is_empty() {
+                    return None;
+                }
+                // fonts TeX itself would load: no validation warnings, except that TeX does not
+                // look for infinite ligature loops when it loads a font
+                let mut probe = file.clone();
+                let only_loops = probe.validate_and_fix().iter().all(|w| {
+                    matches!(
+                        w,
+                        tfm::ValidationWarning::LigKernWarning(
+                            tfm::ligkern::lang::ValidationWarning::InfiniteLoop(_)
+                        )
+                    )
+                });
+                if !only_loops {
+                    return None;
+                }
+                let exists: BTreeSet<u8> = file.char_dimens.keys().map(|c| c.0).collect();
+                let packed: BTreeMap<u8, u8> =
+                    file.lig_kern_entrypoints().into_iter().map(|(c, e)| (c.0, e)).collect();
+                let pj = program_json(&file.lig_kern_program, &file.kerns, file.header.design_size, &packed, true);
+                let (cp, errs) = CompiledProgram::compile_from_tfm_file(&mut file);
+                // unpacked entry points only for choosing words
+                let mut prog = file.lig_kern_program.clone();
+                let ep: BTreeMap<u8, u16> = packed
+                    .iter()
+                    .filter_map(|(c, e)| prog.unpack_entrypoint(*e).ok().map(|u| (*c, u)))
+                    .collect();
+                Some((pj, cp, errs, prog, ep, exists))
+            } else {
+                let src = std::fs::read_to_string(f).ok()?;
+                let (file, warnings) = tfm::pl::File::from_pl_source_code(&src);
+                if !warnings.is_empty() {
+                    return None;
+                }
+                let exists: BTreeSet<u8> = file.char_dimens.keys().map(|c| c.0).collect();
+                let ep: BTreeMap<u8, u16> =
+                    file.lig_kern_entrypoints(false).into_iter().map(|(c, e)| (c.0, e)).collect();
+                let pj = program_json(&file.lig_kern_program, &[], file.header.design_size, &ep, false);
+                let (cp, errs) = CompiledProgram::compile_from_pl_file(&file);
+                Some((pj, cp, errs, file.lig_kern_program.clone(), ep, exists))
+            }
+        });
+        let (pj, cp, errs, prog, ep, exists) = match loaded {
+            Ok(Some(x)) => x,
+            Ok(None) => {
+                skipped += 1;
+                continue;
+            }
+            Err((site, msg)) => {
+                out.line(&json!({"p": {"ins": [], "ep": [], "packed": 0, "lbe": -1, "rbc": 256}, "tag": name,
+                                 "panic": [site, msg], "errs": [], "runs": []}));
+                continue;
+            }
+        };
+        if prog.instructions.is_empty() {
+            skipped += 1;
+            continue;
+        }
+        used += 1;
+        let runs = corpus_runs(&mut rng, &prog, &ep, &exists, npairs, nwalks);
+        for chunk in runs.chunks(batch.max(1)) {
+            let rs: Vec<Value> = chunk.iter().map(|r| run_json(&cp, r)).collect();
+            out.line(&json!({"p": pj, "tag": name, "errs": errs_json(&errs), "runs": rs}));
+        }
+    }
+    out.flush();
+    eprintln!("c05-corpus: {used} fonts used, {skipped} skipped (not loadable without warnings / no lig table)");
+    0
+}
+
+// ------------------------------------------------------------------------------------------
+// c05-convert: property-list fonts converted in memory (`pl::File -> tfm::File`, which packs the
+// entry points and unpacks the kerns) and compiled with compile_from_tfm_file WITHOUT going
+// through bytes.  The specification is shown the font as TeX would read it from the file the
+// conversion serialises to (serialize + deserialize), plus `lbf`: the left-boundary entry point
+// field as the in-memory file carries it (an observation, used only by a named deviation).
+// ------------------------------------------------------------------------------------------
+fn convert(args: &Args) -> i32 {
+    quiet_panics();
+    let dir = args.req("dir");
+    let seed: u64 = args.num("seed", 1);
+    let npairs: usize = args.num("pairs", 30);
+    let nwalks: usize = args.num("walks", 30);
+    let batch: usize = args.num("batch", 60);
+    let mut out = Out::new(args.str("out"));
+    let subs = args.str("subdirs").unwrap_or("computer-modern,ctan,originals,fuzz").to_string();
+    let mut files: Vec<std::path::PathBuf> = vec![];
+    for sub in subs.split(',') {
+        if let Ok(rd) = std::fs::read_dir(std::path::Path::new(dir).join(sub)) {
+            for e in rd.flatten() {
+                let p = e.path();
+                if matches!(p.extension().and_then(|s| s.to_str()), Some("plst") | Some("pl")) {
+                    files.push(p);
+                }
+            }
+        }
+    }
+    files.sort();
+    let mut rng = Rng::new(seed ^ 0xC0DE);
+    let (mut used, mut skipped) = (0, 0);
+    for f in &files {
+        let name = format!("{}:converted", f.file_name().unwrap().to_string_lossy());
+        let loaded = catch(|| -> Option<(Value, CompiledProgram, Vec<InfiniteLoopError>, Program, BTreeMap<u8, u16>, BTreeSet<u8>)> {
+            let src = std::fs::read_to_string(f).ok()?;
+            let (pl, warnings) = tfm::pl::File::from_pl_source_code(&src);
+            if !warnings.is_empty() || pl.lig_kern_program.instructions.is_empty() {
+                return None;
+            }
+            let mut t: tfm::File = pl.into();
+            let lbf: i64 = t.lig_kern_program.left_boundary_char_entrypoint.map(|e| e as i64).unwrap_or(-1);
+            // the font file this conversion stands for, as a TFM reader sees it
+            let bytes = t.serialize();
+            let (rt, warnings) = tfm::File::deserialize(&bytes);
+            let rt = rt.ok()?;
+            if !warnings.is_empty() {
+                return None;
+            }
+            let mut probe = rt.clone();
+            if !probe.validate_and_fix().is_empty() {
+                return None;
+            }
+            let exists: BTreeSet<u8> = rt.char_dimens.keys().map(|c| c.0).collect();
+            let packed: BTreeMap<u8, u8> =
+                rt.lig_kern_entrypoints().into_iter().map(|(c, e)| (c.0, e)).collect();
+            let mut pj = program_json(&rt.lig_kern_program, &rt.kerns, rt.header.design_size, &packed, true);
+            pj["lbf"] = json!(lbf);
+            let mut prog = rt.lig_kern_program.clone();
+            let ep: BTreeMap<u8, u16> =
+                packed.iter().filter_map(|(c, e)| prog.unpack_entrypoint(*e).ok().map(|u| (*c, u))).collect();
+            // the code under test: compile the converted file as it is in memory
+            let (cp, errs) = CompiledProgram::compile_from_tfm_file(&mut t);
+            Some((pj, cp, errs, prog, ep, exists))
+        });
+        let (pj, cp, errs, prog, ep, exists) = match loaded {
+            Ok(Some(x)) => x,
+            Ok(None) => {
+                skipped += 1;
+                continue;
+            }
+            Err((site, msg)) => {
+                out.line(&json!({"p": {"ins": [], "ep": [], "packed": 0, "lbe": -1, "rbc": 256}, "tag": name,
+                                 "panic": [site, msg], "errs": [], "runs": []}));
+                continue;
+            }
+        };
+        used += 1;
+        let runs = corpus_runs(&mut rng, &prog, &ep, &exists, npairs, nwalks);
+        for chunk in runs.chunks(batch.max(1)) {
+            let rs: Vec<Value> = chunk.iter().map(|r| run_json(&cp, r)).collect();
+            out.line(&json!({"p": pj, "tag": name, "errs": errs_json(&errs), "runs": rs}));
+        }
+    }
+    out.flush();
+    eprintln!("c05-convert: {used} fonts used, {skipped} skipped");
+    0
+}
+
+// ------------------------------------------------------------------------------------------
+// c05-one: re-run one recorded event (replay): program and runs are read back from the event
+// ------------------------------------------------------------------------------------------
+fn one(args: &Args) -> i32 {
+    quiet_panics();
+    let path = args.req("event");
+    let txt = std::fs::read_to_string(path).expect("read event");
+    let v: Value = serde_json::from_str(&txt).expect("json");
+    let e = if v.get("event").is_some() { &v["event"] } else { &v };
+    let pj = &e["p"];
+    if pj["packed"].as_u64() == Some(1) {
+        eprintln!("corpus event: re-run ./check C05 (the font is named in \"tag\")");
+        return 2;
+    }
+    let mut p = Program::default();
+    for i in pj["ins"].as_array().unwrap() {
+        let (skip, rc, op, rem) =
+            (i[0].as_i64().unwrap(), i[1].as_u64().unwrap() as u8, i[2].as_i64().unwrap(), i[3].as_i64().unwrap());
+        let operation = match op {
+            128 => Operation::Kern(FixWord((rem * 16) as i32)),
+            255 => Operation::EntrypointRedirect(rem as u16, true),
+            b => Operation::Ligature {
+                char_to_insert: Char(rem as u8),
+                post_lig_operation: form_of_byte(b),
+                post_lig_tag_invalid: false,
+            },
+        };
+        p.instructions.push(Instruction {
+            next_instruction: if skip < 0 { None } else { Some(skip as u8) },
+            right_char: Char(rc),
+            operation,
+        });
+    }
+    let lbe = pj["lbe"].as_i64().unwrap();
+    p.left_boundary_char_entrypoint = if lbe < 0 { None } else { Some(lbe as u16) };
+    let rbc = pj["rbc"].as_i64().unwrap();
+    p.right_boundary_char = if rbc == 256 { None } else { Some(Char(rbc as u8)) };
+    let ep: BTreeMap<u8, u16> = pj["ep"]
+        .as_array()
+        .unwrap()
+        .iter()
+        .map(|x| (x[0].as_u64().unwrap() as u8, x[1].as_u64().unwrap() as u16))
+        .collect();
+    let runs: Vec<RunSpec> = e["runs"]
+        .as_array()
+        .unwrap()
+        .iter()
+        .map(|r| RunSpec {
+            w: r["w"].as_array().unwrap().iter().map(|c| c.as_u64().unwrap() as u8).collect(),
+            nl: r["nl"].as_u64() == Some(1),
+            ro: match r["ro"].as_i64().unwrap() {
+                256 => None,
+                c => Some(c as u8),
+            },
+        })
+        .collect();
+    let mut out = Out::new(args.str("out"));
+    out.line(&event(&p, &[], FixWord::ONE, &ep, &runs, "replay"));
+    out.flush();
+    0
 }
